@@ -138,6 +138,56 @@ func c18Pattern(ns []c18Node, wrapLeaves bool) string {
 	return sb.String()
 }
 
+// c18Rescope spells the scope rule out without a model: an inline (?on-off) item holds until the end
+// of the enclosing group, i.e. it is the scoped group (?on-off:…) around the rest of its
+// alternative and around every later alternative of that group.  The result has no inline items.
+func c18Rescope(items []c18Node) []c18Node {
+	var segs [][]c18Node
+	cur := []c18Node{}
+	for _, it := range items {
+		if it.K == "bar" {
+			segs = append(segs, cur)
+			cur = []c18Node{}
+			continue
+		}
+		cur = append(cur, it)
+	}
+	segs = append(segs, cur)
+	var active [][]int
+	var out []c18Node
+	for si, seg := range segs {
+		atStart := append([][]int{}, active...)
+		body := c18RescopeSeg(seg, &active)
+		for k := len(atStart) - 1; k >= 0; k-- {
+			body = []c18Node{{K: "sc", Opt: atStart[k], Kids: body}}
+		}
+		out = append(out, body...)
+		if si < len(segs)-1 {
+			out = append(out, c18Node{K: "bar"})
+		}
+	}
+	return out
+}
+
+func c18RescopeSeg(seg []c18Node, active *[][]int) []c18Node {
+	out := []c18Node{}
+	for idx, it := range seg {
+		switch it.K {
+		case "opt":
+			*active = append(*active, it.Opt)
+			rest := c18RescopeSeg(seg[idx+1:], active)
+			return append(out, c18Node{K: "sc", Opt: it.Opt, Kids: rest})
+		case "grp", "sc":
+			c := it
+			c.Kids = c18Rescope(it.Kids)
+			out = append(out, c)
+		default:
+			out = append(out, it)
+		}
+	}
+	return out
+}
+
 // protocol: leaves and groups are numbered in preorder
 func c18Sexp(ns []c18Node, id *int, sb *strings.Builder) {
 	for _, n := range ns {
@@ -536,6 +586,7 @@ func c18Check(c *core.Ctx, cases []c18Case) []core.Outcome {
 		o := &outs[i]
 		pat := c18Pattern(cs.Pat, false)
 		patW := c18Pattern(cs.Pat, true)
+		patR := c18Pattern(c18Rescope(cs.Pat), false)
 		o.Key = pat
 		hasOpt := strings.Contains(pat, "(?") && (strings.Contains(pat, "(?-") || strings.ContainsAny(pat, "imnsx"))
 		o.Nontrivial = hasOpt
@@ -566,6 +617,10 @@ func c18Check(c *core.Ctx, cases []c18Case) []core.Outcome {
 				ref  c18Parsed
 			}
 			alts := []alt{{"prefix", c18Parse(sp["prefix"], 0), base}, {"wrap", c18Parse(sp["wrap"], 0), base}}
+			if hasOpt {
+				sp["rescoped"] = patR
+				alts = append(alts, alt{"rescoped", c18Parse(patR, ro), base})
+			}
 			if !noDriver {
 				expl, err := c18Explicit(res[i*32+os_], flats[i])
 				if err != nil {
@@ -616,6 +671,9 @@ func c18Check(c *core.Ctx, cases []c18Case) []core.Outcome {
 				// (b) parse-level certificate
 				if a.p.tabs != a.ref.tabs {
 					bad(kind, a.name+":tables", what+": caps/capnames/caplist/captop differ", a.ref.tabs, a.p.tabs)
+				}
+				if a.name == "rescoped" {
+					continue // extra group boundaries change which neighbours the reducer may merge: behaviour and tables only
 				}
 				if a.p.tree != a.ref.tree {
 					bad(kind, a.name+":tree", what+": parse trees differ beyond parser-only option bits", a.ref.tree, a.p.tree)
